@@ -593,7 +593,25 @@ class Interp:
                 raise SymError("del target")
 
     def st_With(self, s, fr):
-        raise SymError("with statement not in subset")
+        # `with e as x:` for modelled context managers (objects carrying __enter__/__exit__, e.g. the abstract file of open()):
+        # x = e.__enter__(); body; e.__exit__() on every way out.  An __exit__ that swallows exceptions is not modelled.
+        mgrs = []
+        for item in s.items:
+            m = self.eval(item.context_expr, fr)
+            if not (isinstance(m, SObj) and "__enter__" in m.f and "__exit__" in m.f):
+                raise SymError("with statement over an unmodelled context manager")
+            v = m.f["__enter__"].__sym_call__(self, [], {}, item.context_expr)
+            if item.optional_vars is not None:
+                self.assign(item.optional_vars, v, fr)
+            mgrs.append((m, item.context_expr))
+        try:
+            self.exec_block(s.body, fr)
+        finally:
+            import sys as _sys
+            et = _sys.exc_info()[0]
+            if et is None or et in (SymRaise, _Return, _Break, _Continue):
+                for m, nd in reversed(mgrs):
+                    m.f["__exit__"].__sym_call__(self, [None, None, None], {}, nd)
 
     # -- loops ----------------------------------------------------------------------
     def loop_spec(self, node, fr):
